@@ -92,8 +92,25 @@ def main(tier):
                 txn_on = bool(o[1])
         if txn_on and h and h[-1][0] != 13 and rnd.random() < 0.75:
             h.append([13])
+    # hyperedge scenarios of C12 (junctions of degree 4..5 with shared paths, both improvement options, registration by junction and by
+    # terminal list, follow-up transactions): the hyperedge code needs more connectors on a junction than the protocol model's three.
+    # They run under the sanitizers only (their calls are outside Lifecycle's alphabet, so they are not trace-validated here).
+    from checks import c12 as C12
+    scs = json.load(open(os.path.join(V.BUILD, 'run', 'c12', 'scen.json'))) if os.path.exists(os.path.join(V.BUILD, 'run', 'c12', 'scen.json')) else None
+    if scs is None:
+        d12 = V.rundir('c12gen')
+        cfg12 = os.path.join(d12, 'gen.cfg')
+        open(cfg12, 'w').write('SPECIFICATION GenSpec\nCHECK_DEADLOCK FALSE\n')
+        V.tlc(C12.HT, cfg12, env={'HYPERGEN': os.path.join(d12, 'scen.json'), 'HYPERRECS': '/dev/null'}, workers=1, timeout=600)
+        scs = json.load(open(os.path.join(d12, 'scen.json')))
+    pick = rnd.sample(scs, min(len(scs), 120 if quick else 1200))
+    nproto = len(hists)
+    forced = {}
+    for sc in pick:
+        forced[len(hists)] = (1, sc['opts'])
+        hists.append(C12.scenario_ops(sc, rnd))
     scen = os.path.join(d, 'scen.txt')
-    cfgs = LC.write_scenarios(scen, hists, rnd)
+    cfgs = LC.write_scenarios(scen, hists, rnd, forced=forced)
     # ---- sanitizer replay (ASan + UBSan + LSan): what a TLA+ specification cannot see
     hs, = V.build(['h_life'], cfg='san')
     env = {'ASAN_OPTIONS': 'detect_leaks=1:abort_on_error=0:exitcode=23', 'UBSAN_OPTIONS': 'print_stacktrace=1:halt_on_error=1'}
@@ -139,9 +156,30 @@ def main(tier):
             elif pending and txnoff and 'removeFromGraph' in key:
                 key = 'router-destroyed-with-queued-actions:transactions-switched-off:Obstacle::removeFromGraph'
             vd.violation(key, '%s | mode=%d opts=%d ops=%s' % (what, mode, opts, ops), {'mode': mode, 'opts': opts, 'ops': ops, 'stderr_tail': txt[-3000:]})
-        else:
-            good.append(ex)
-    # leaks are reported by LSan at process exit of a clean run: re-run the clean executions alone
+        elif ex['index'] < nproto:
+            good.append(ex)          # (the hyperedge scenarios are not behaviours of Lifecycle: sanitizers only)
+    # leaks: LSan reports when a harness process exits, for everything that process ran.  An execution that was cut short by an exception
+    # (a failed assertion is thrown in this build) leaves objects behind as a consequence, so the executions that ended cleanly are run
+    # once more on their own, in one process, and only that process's exit report is read.  One finding per allocation site (the first
+    # libavoid frame of each record); objects the client created are not attributed.
+    clean = [ex['index'] for ex in execs if ex['end'] and ex['end'].get('e') == 'End' and ex['end'].get('ok', False)
+             and not any('"error"' in l for l in ex['lines'])]
+    sites = {}
+    if clean:
+        scen2 = os.path.join(d, 'scen_clean.txt')
+        all_lines = open(scen).read().splitlines()
+        open(scen2, 'w').write('\n'.join(all_lines[i] for i in clean) + '\n')
+        LC.run_harness(hs, scen2, os.path.join(d, 'san_clean.ndjson'), len(clean), timeout=1500, env=env)
+        for rep in LC.EXIT_REPORTS:
+            for blk in re.split(r'\n(?=(?:Direct|Indirect) leak of )', rep):
+                if not blk.startswith('Direct leak'):
+                    continue
+                fr = re.findall(r'#\d+ 0x[0-9a-f]+ in (Avoid::[A-Za-z_:~]+)', blk)
+                if fr:
+                    sites.setdefault(fr[0], blk[:900])
+    ev.cov['executions_rerun_for_leaks'] = len(clean)
+    for site, blk in sorted(sites.items()):
+        vd.violation('lsan:leak:%s:libavoid' % site, 'libavoid leaks memory allocated in %s: %s' % (site, blk[:500].replace('\n', ' | ')), {'library': 'libavoid', 'report': blk})
     ev.cov['executions'] = len(execs)
     ev.cov['executions_completed'] = len(good)
     # ---- B2: complete executions against the protocol
